@@ -11,15 +11,16 @@
      the import of the export into the pristine ledger is ACCEPTED, leaves the ledger `initializing`, and reproduces
        volumes; every column of the transactions table except post-commit EFFECTIVE volumes (ids, postings, current metadata,
        timestamps, references, inserted_at, updated_at, reverted_at, post-commit volumes); the transaction metadata history
-       (revisions and dates); the logs (ids, payloads, dates, idempotency keys and inputs); the hash column.
+       (revisions and dates); the logs (ids, payloads, dates, idempotency keys and inputs); the hash column; of the accounts
+       table, row by row: address, current metadata, insertion date (NOT first usage, updated_at, metadata history: see below).
    PROVED under a hypothesis:
      C11_roundtrip_moves            no dry run in the history, or MOVES_HISTORY off: additionally the moves table (seq included)
                                     and the effective volumes, i.e. the transactions table entirely (a dry run consumes
                                     moves.seq values on the source: the copy then renumbers seq, which no read exposes; the
                                     tie compares moves modulo seq on every case);
      C11_roundtrip_accounts_partial no SET/DELETE_METADATA operation on accounts in the history (account metadata given with
-                                    transactions is allowed): additionally the accounts table (metadata, first usage, insertion
-                                    date, updated_at) and the account metadata history;
+                                    transactions is allowed): additionally first usage and updated_at, i.e. the accounts table
+                                    entirely, and the account metadata history;
      C11_roundtrip_tables_partial   both: all seven tables are identical.
    REFUTED without the accounts hypothesis: C11_refuted_first_usage (SET_METADATA on an account lowers first_usage to the log
      date), C11_refuted_updated_at (DELETE_METADATA on an account is dated at the import, also in the metadata history).
@@ -57,13 +58,19 @@ Theorem C11_roundtrip : forall (H : bytes -> bytes) (pre : option bytes -> log -
     map tx_core (s_txs (i_s b)) = map tx_core (s_txs (i_s a)) /\
     s_thist (i_s b) = s_thist (i_s a) /\
     s_logs (i_s b) = s_logs (i_s a) /\
+    map av (s_accounts (i_s b)) = map av (s_accounts (i_s a)) /\
     i_tab b = i_tab a.
 Proof.
   intros H pre f h now Hp a.
   destruct (import_roundtrip H pre Hp f false false now h) as (b & E & S & Et & El); [intros D; discriminate D | intros D; discriminate D |].
-  exists b. destruct S as [Hv Ht Hh Hl _ _]. repeat split; assumption.
+  exists b. destruct S as [Hv Ht Hh Hl _ _ Hav _]. repeat split; assumption.
 Qed.
 Print Assumptions C11_roundtrip.
+
+(* what [av] keeps of an account row: address, current metadata, insertion date (not first usage, not updated_at) *)
+Theorem C11_av_fields : forall x y, av x = av y -> a_addr x = a_addr y /\ a_meta x = a_meta y /\ a_ins x = a_ins y.
+Proof. intros x y E. inversion E. repeat split; assumption. Qed.
+Print Assumptions C11_av_fields.
 
 (* what [tx_core] keeps: everything but the effective volumes *)
 Theorem C11_tx_core_fields : forall x y, tx_core x = tx_core y ->
@@ -108,7 +115,7 @@ Proof.
   intros H pre f h now Hp Hm Ha a.
   destruct (import_roundtrip H pre Hp f true true now h) as (b & E & S & Et & _); [intros _; exact Hm | intros _; exact Ha |].
   exists b. split; [exact E|]. split; [|exact Et].
-  destruct S as [Hv _ Hh Hl Hmv Hacc]. destruct (Hmv eq_refl) as (A & B0 & _). destruct (Hacc eq_refl) as (C & D).
+  destruct S as [Hv _ Hh Hl Hmv Hacc _ _]. destruct (Hmv eq_refl) as (A & B0 & _). destruct (Hacc eq_refl) as (C & D).
   unfold tables. rewrite Hv, B0, A, C, D, Hh, Hl. reflexivity.
 Qed.
 Print Assumptions C11_roundtrip_tables_partial.
